@@ -144,10 +144,12 @@ CtxCode(o) == IF ops[o].ctxkind = "deadline" THEN -32096 ELSE -32097
 \* r (for id x of op o) is justified
 ResultOK(o, r, x) ==
   \/ IsPeerReply(r, x)
+  \* anything that is not the peer's reply needs a reason (C04: "exactly what the peer sent for that id";
+  \* C05: the context's own error only when that context ended or the client stopped)
   \/ /\ r.kind = "error" /\ r.code \in {-32097, -32096}                \* the context's own error
-     /\ Imp("C05", ops[o].ctxend \/ stopped)
-     /\ Imp("C05", (ops[o].ctxend /\ ~stopped) => r.code = CtxCode(o))
-  \/ /\ r.kind = "error" /\ r.code = -32603 /\ Imp("C05", stopped)     \* channel failure reported as internal error
+     /\ (ops[o].ctxend \/ stopped)
+     /\ (ops[o].ctxend /\ ~stopped) => r.code = CtxCode(o)
+  \/ /\ r.kind = "error" /\ r.code = -32603 /\ stopped                 \* channel failure reported as internal error
 
 OpE ==
   /\ IsEvent("OpE") /\ Ev.op \in DOMAIN ops /\ ops[Ev.op].st = "open"
